@@ -81,8 +81,8 @@ class no_cache(object):
        #if maxsize is not 0: raise ValueError('maxsize cannot be set')
         maxsize = 0 #XXX: allow maxsize to be given but ignored ?
         purge = True #XXX: allow purge to be given but ignored ?
-        if cache is None: cache = archive_dict()
-        elif type(cache) is dict: cache = archive_dict(cache)
+        # cache=None: every decorated function gets its own archive_dict (see __call__)
+        if type(cache) is dict: cache = archive_dict(cache)
 
         if keymap is None: keymap = stringmap(flat=False)
         if ignore is None: ignore = tuple()
@@ -116,6 +116,7 @@ class no_cache(object):
        #lock = RLock()                  # linkedlist updates aren't threadsafe
         maxsize = self.__state__['maxsize']
         cache = self.__state__['cache']
+        if cache is None: cache = archive_dict() # not shared between functions
         keymap = self.__state__['keymap']
         ignore = self.__state__['ignore']
         rounded_args = self.__state__['roundargs']
@@ -272,8 +273,8 @@ class inf_cache(object):
        #if maxsize is not None: raise ValueError('maxsize cannot be set')
         maxsize = None #XXX: allow maxsize to be given but ignored ?
         purge = False #XXX: allow purge to be given but ignored ?
-        if cache is None: cache = archive_dict()
-        elif type(cache) is dict: cache = archive_dict(cache)
+        # cache=None: every decorated function gets its own archive_dict (see __call__)
+        if type(cache) is dict: cache = archive_dict(cache)
 
         if keymap is None: keymap = stringmap(flat=False)
         if ignore is None: ignore = tuple()
@@ -307,6 +308,7 @@ class inf_cache(object):
        #lock = RLock()                  # linkedlist updates aren't threadsafe
         maxsize = self.__state__['maxsize']
         cache = self.__state__['cache']
+        if cache is None: cache = archive_dict() # not shared between functions
         keymap = self.__state__['keymap']
         ignore = self.__state__['ignore']
         rounded_args = self.__state__['roundargs']
@@ -475,8 +477,8 @@ class lfu_cache(object):
     def __init__(self, maxsize=100, cache=None, keymap=None, ignore=None, tol=None, deep=False, purge=False):
         if maxsize is None or maxsize == 0:
             return
-        if cache is None: cache = archive_dict()
-        elif type(cache) is dict: cache = archive_dict(cache)
+        # cache=None: every decorated function gets its own archive_dict (see __call__)
+        if type(cache) is dict: cache = archive_dict(cache)
 
         if keymap is None: keymap = stringmap(flat=False)
         if ignore is None: ignore = tuple()
@@ -513,6 +515,7 @@ class lfu_cache(object):
        #lock = RLock()                  # linkedlist updates aren't threadsafe
         maxsize = self.__state__['maxsize']
         cache = self.__state__['cache']
+        if cache is None: cache = archive_dict() # not shared between functions
         keymap = self.__state__['keymap']
         ignore = self.__state__['ignore']
         rounded_args = self.__state__['roundargs']
@@ -704,8 +707,8 @@ class lru_cache(object):
     def __init__(self, maxsize=100, cache=None, keymap=None, ignore=None, tol=None, deep=False, purge=False):
         if maxsize is None or maxsize == 0:
             return
-        if cache is None: cache = archive_dict()
-        elif type(cache) is dict: cache = archive_dict(cache)
+        # cache=None: every decorated function gets its own archive_dict (see __call__)
+        if type(cache) is dict: cache = archive_dict(cache)
 
         if keymap is None: keymap = stringmap(flat=False)
         if ignore is None: ignore = tuple()
@@ -744,6 +747,7 @@ class lru_cache(object):
        #lock = RLock()                  # linkedlist updates aren't threadsafe
         maxsize = self.__state__['maxsize']
         cache = self.__state__['cache']
+        if cache is None: cache = archive_dict() # not shared between functions
         keymap = self.__state__['keymap']
         ignore = self.__state__['ignore']
         rounded_args = self.__state__['roundargs']
@@ -961,8 +965,8 @@ class mru_cache(object):
     def __init__(self, maxsize=100, cache=None, keymap=None, ignore=None, tol=None, deep=False, purge=False):
         if maxsize is None or maxsize == 0:
             return
-        if cache is None: cache = archive_dict()
-        elif type(cache) is dict: cache = archive_dict(cache)
+        # cache=None: every decorated function gets its own archive_dict (see __call__)
+        if type(cache) is dict: cache = archive_dict(cache)
 
         if keymap is None: keymap = stringmap(flat=False)
         if ignore is None: ignore = tuple()
@@ -998,6 +1002,7 @@ class mru_cache(object):
        #lock = RLock()                  # linkedlist updates aren't threadsafe
         maxsize = self.__state__['maxsize']
         cache = self.__state__['cache']
+        if cache is None: cache = archive_dict() # not shared between functions
         keymap = self.__state__['keymap']
         ignore = self.__state__['ignore']
         rounded_args = self.__state__['roundargs']
@@ -1195,8 +1200,8 @@ class rr_cache(object):
     def __init__(self, maxsize=100, cache=None, keymap=None, ignore=None, tol=None, deep=False, purge=False):
         if maxsize is None or maxsize == 0:
             return
-        if cache is None: cache = archive_dict()
-        elif type(cache) is dict: cache = archive_dict(cache)
+        # cache=None: every decorated function gets its own archive_dict (see __call__)
+        if type(cache) is dict: cache = archive_dict(cache)
 
         if keymap is None: keymap = stringmap(flat=False)
         if ignore is None: ignore = tuple()
@@ -1230,6 +1235,7 @@ class rr_cache(object):
        #lock = RLock()                  # linkedlist updates aren't threadsafe
         maxsize = self.__state__['maxsize']
         cache = self.__state__['cache']
+        if cache is None: cache = archive_dict() # not shared between functions
         keymap = self.__state__['keymap']
         ignore = self.__state__['ignore']
         rounded_args = self.__state__['roundargs']
